@@ -651,3 +651,11 @@ pub fn protect_line(out: &mut Out, kit: &Kit, s: &Subject, name: &str, stats: &m
 		}
 	}
 }
+
+/// the body tail after a compaction: `remove_historical_blocks` deleted every stored block below it,
+/// on every fork, together with its spent-index record and sums
+pub fn tail_line(out: &mut Out, kit: &Kit, s: &Subject, name: &str) {
+	if let Ok(t) = s.c().tail() {
+		out.line(&format!("chain tail {}", name), &kit.bid(&t.last_block_h));
+	}
+}
